@@ -1,7 +1,7 @@
-import LunarVerif.Proofs.C05Txn
+import LunarVerif.Proofs.C05Build
 /-!
-C05, part 3: cycles give unbounded paths; concrete witnesses for F05a / F05b; the builder's fuel on
-reference-free connection lists.
+C05, part 3: concrete configurations — the former witnesses of F05a / F05b / F05c (now regression examples:
+the loader REFUSES them) and plain accepted configurations for non-vacuity.
 -/
 namespace LunarVerif.C05
 open LunarVerif.FlowGraph LunarVerif.FlowExec
@@ -20,14 +20,13 @@ theorem vOk_ok {d : Dir} {g : DirGraph} (h : vOk d g = true) : validateDirection
     exact hu
   · exact absurd h (by simp)
 
-/-! ### F05a witness -/
-
 def wPA : PDef := ⟨"PA", [⟨"a", "any"⟩, ⟨"b", "any"⟩], []⟩
 def wPE : PDef := ⟨"PE", [⟨"a", "any"⟩, ⟨"b", "any"⟩, ⟨"e", "res"⟩], []⟩
 def wS : XEnd := .stream "globalStream" "start"
 def wE : XEnd := .stream "globalStream" "end"
 
-/-- `corpus/C05/F05a.ops` -/
+/-- `corpus/C05/regress-F05a.ops`: response `start → R → end`, cycle `B ⇄ C` reachable only from the
+    answering node `G` -/
 def wCfgA : Cfg :=
   { pdefs := [wPA, wPE]
     flows := [{ name := "f1"
@@ -36,104 +35,16 @@ def wCfgA : Cfg :=
                 res := [⟨wS, .proc "R" ""⟩, ⟨.proc "R" "a", wE⟩, ⟨.proc "G" "e", .proc "B" ""⟩,
                         ⟨.proc "B" "a", .proc "C" ""⟩, ⟨.proc "C" "a", .proc "B" ""⟩] }] }
 
-def wFlowA : Flow :=
-  ⟨"f1",
-   ⟨some "G", [⟨"G", [⟨"a", .stream "globalStream" "end"⟩]⟩]⟩,
-   ⟨some "R", [⟨"R", [⟨"a", .stream "globalStream" "end"⟩]⟩, ⟨"G", [⟨"e", .node "B"⟩]⟩,
-               ⟨"B", [⟨"a", .node "C"⟩]⟩, ⟨"C", [⟨"a", .node "B"⟩]⟩]⟩⟩
+/-- the same continuation without the cycle (`G → B → C → end`), in a response direction WITHOUT stream entry -/
+def wCfgA' : Cfg :=
+  { pdefs := [wPA, wPE]
+    flows := [{ name := "f1"
+                procs := [⟨"G", "PE", []⟩, ⟨"B", "PA", []⟩, ⟨"C", "PA", []⟩]
+                req := [⟨wS, .proc "G" ""⟩, ⟨.proc "G" "a", wE⟩]
+                res := [⟨.proc "G" "e", .proc "B" ""⟩, ⟨.proc "B" "a", .proc "C" ""⟩, ⟨.proc "C" "a", wE⟩] }] }
 
 /-- `G` answers the request; every other processor always emits output `a` -/
 def wOracleA : Oracle := fun _ k d => if k == "G" && d == .req then { name := "e", early := true } else { name := "a" }
-
-def okLoad : LoadRes → Option (List Flow)
-  | .accept fls => some fls
-  | _ => none
-
-theorem wCfgA_load : load wCfgA = .accept [wFlowA] := by decide
-
-theorem wCfgA_f05a : f05a wCfgA = true := by
-  unfold f05a
-  rw [wCfgA_load]
-  decide
-
-/-- one level of a walk through a node with a single, followed, processor edge whose target loops -/
-theorem walk_through (f : Flow) (o : Oracle) (d : Dir) (fuel : Nat) (k t : String) (n : Node)
-    (hn : (f.dir d).find k = some n) (herr : (o f.name k d).err = false)
-    (hearly : ((o f.name k d).early && d == .req) = false)
-    (hedges : n.edges = [⟨(o f.name k d).name, .node t⟩])
-    (ht : (walk f o d fuel t).err = some .fuel) : (walk f o d (fuel + 1) k).err = some .fuel := by
-  unfold walk
-  simp only [hn, herr, hearly, hedges, Bool.false_eq_true, if_false, walkEdges, beq_self_eq_true, if_true, ht,
-    Option.isSome_some]
-
-theorem wFlowA_BC : ∀ fuel, (walk wFlowA wOracleA .res fuel "B").err = some .fuel ∧
-    (walk wFlowA wOracleA .res fuel "C").err = some .fuel
-  | 0 => by simp [walk]
-  | fuel + 1 => by
-    have ih := wFlowA_BC fuel
-    exact ⟨walk_through wFlowA wOracleA .res fuel "B" "C" ⟨"B", [⟨"a", .node "C"⟩]⟩ (by decide) (by decide)
-             (by decide) (by decide) ih.2,
-           walk_through wFlowA wOracleA .res fuel "C" "B" ⟨"C", [⟨"a", .node "B"⟩]⟩ (by decide) (by decide)
-             (by decide) (by decide) ih.1⟩
-
-/-- `executeFlow` started from a short-circuit node whose first edge leads to the processor `t` -/
-theorem executeFlow_sc (f : Flow) (o : Oracle) (d : Dir) (fuel : Nat) (k t : String) (n : Node) (c : String)
-    (rest : List Edge) (hdef : (f.dir d).isDefined = true) (hn : (f.dir d).find k = some n)
-    (hedges : n.edges = ⟨c, .node t⟩ :: rest) :
-    (executeFlow f o d fuel (some k)).err = (walk f o d fuel t).err := by
-  unfold executeFlow
-  simp only [hdef, Bool.not_true, Bool.false_eq_true, if_false, Option.bind_some, hn, hedges]
-
-theorem wFlowA_loops : ∀ fuel, (executeFlow wFlowA wOracleA .res fuel (some "G")).err = some .fuel := by
-  intro fuel
-  rw [executeFlow_sc wFlowA wOracleA .res fuel "G" "B" ⟨"G", [⟨"e", .node "B"⟩]⟩ "e" [] (by decide) (by decide)
-    (by decide)]
-  exact (wFlowA_BC fuel).1
-
-
-theorem wReqA (n : Nat) : executeFlow wFlowA wOracleA .req (n + 1) none =
-    { trace := [.enter "f1" .req, .exec "f1" "G" .req { name := "e", early := true }], sc := some "G", err := none } := by
-  rfl
-
-theorem wTxnA_loops : ∀ fuel, (transaction (selected [wFlowA]) wOracleA fuel .req).err = some .fuel := by
-  intro fuel
-  cases fuel with
-  | zero => decide
-  | succ n =>
-    have h := wFlowA_loops (n + 1)
-    simp only [transaction, executeReq, selected, runAll, runUserReq, wReqA, executeRes, runUserRes,
-      List.reverse_cons, List.reverse_nil, List.nil_append, startFor, show wFlowA.name = "f1" from rfl]
-    simp [h]
-
-/-! ### the builder's fuel on reference-free connection lists -/
-
-theorem buildX_refFree_noFuel (pts : List PType) (fs : List XFlow) (home : String) (d : Dir) :
-    ∀ (cs : List XConn), cs.all (·.base?.isSome) = true → ∀ (cur : String) (s : BS) (fuel : Nat),
-      cs.length ≤ fuel → buildX pts fs home d fuel cur s cs ≠ .error .fuel
-  | [], _, _, _, _, _ => by simp [buildX]
-  | c :: cs, hfree, cur, s, fuel, hf => by
-    simp only [List.all_cons, Bool.and_eq_true] at hfree
-    obtain ⟨fuel', rfl⟩ : ∃ fuel', fuel = fuel' + 1 := ⟨fuel - 1, by simp only [List.length_cons] at hf; omega⟩
-    have ih := fun s' => buildX_refFree_noFuel pts fs home d cs hfree.2 cur s' fuel'
-      (by simp only [List.length_cons] at hf; omega)
-    obtain ⟨src, dst⟩ := c
-    have hc := hfree.1
-    unfold buildX
-    cases src <;> cases dst <;> simp [XConn.base?, XEnd.base?] at hc <;> simp only []
-    all_goals
-      split
-      · intro h; cases h
-      · first
-        | exact ih _
-        | (split
-           · rename_i e heq
-             intro h
-             cases h
-             (repeat' (split at heq)) <;> simp at heq
-           · exact ih _)
-
-
-/-! ### F05b witness -/
 
 def wFa : XFlow :=
   { name := "fa", procs := [⟨"A", "PA", []⟩]
@@ -143,73 +54,23 @@ def wFb : XFlow :=
   { name := "fb", procs := [⟨"B", "PA", []⟩]
     req := [⟨wS, .proc "B" ""⟩, ⟨.proc "B" "a", .flow "fa" "start"⟩], res := [⟨wS, wE⟩] }
 
-/-- `corpus/C05/F05b.ops` -/
+/-- `corpus/C05/regress-F05b.ops`: `fa ⇄ fb` -/
 def wCfgB : Cfg := { pdefs := [wPA], flows := [wFa, wFb] }
 
-theorem getOrCreateX_some (fs : List XFlow) (cur : String) (s : BS) (k : String)
-    (h : (procsOf fs cur).any (·.1 == k) = true) : ∃ s', getOrCreateX fs cur s k = some s' := by
-  unfold getOrCreateX
-  cases s.g.find k <;> simp [h]
+/-- a diamond of references `fa → fc`, `fb → fc` (the same flow incorporated twice) -/
+def wCfgDiamond : Cfg :=
+  { pdefs := [wPA]
+    flows := [{ wFa with req := [⟨wS, .proc "A" ""⟩, ⟨.proc "A" "a", .flow "fc" "start"⟩] },
+              { wFb with req := [⟨wS, .proc "B" ""⟩, ⟨.proc "B" "a", .flow "fc" "start"⟩] },
+              { name := "fc", procs := [⟨"C", "PA", []⟩]
+                req := [⟨wS, .proc "C" ""⟩, ⟨.proc "C" "a", wE⟩], res := [⟨wS, wE⟩] }] }
 
-/-- a flow of the shape `start → k`, `k -a-> flow tgt start` cannot be built with `fuel` if `tgt` cannot be
-    built with any smaller fuel -/
-theorem loop_shape (pts : List PType) (fs : List XFlow) (home cur k tgt : String) (tf : XFlow) (fuel : Nat)
-    (hk : (procsOf fs cur).any (·.1 == k) = true)
-    (hcond : validateCondition pts (procsOf fs cur) .req k "a" = true)
-    (hflow : findFlow fs tgt = some tf)
-    (hrec : ∀ f', f' < fuel → ∀ s', buildX pts fs home .req f' tgt s' (tf.conns .req) = .error .fuel) (s : BS) :
-    buildX pts fs home .req fuel cur s
-      [⟨.stream "globalStream" "start", .proc k ""⟩, ⟨.proc k "a", .flow tgt "start"⟩] = .error .fuel := by
-  cases fuel with
-  | zero => rfl
-  | succ f1 =>
-    obtain ⟨s1, hs1⟩ := getOrCreateX_some fs cur s k hk
-    unfold buildX
-    simp only [Bool.not_true, Bool.false_eq_true, if_false, beq_self_eq_true, if_true, hs1]
-    have hnext : ∀ s2, buildX pts fs home .req f1 cur s2 [⟨.proc k "a", .flow tgt "start"⟩] = .error .fuel := by
-      intro s2
-      cases f1 with
-      | zero => rfl
-      | succ f2 =>
-        obtain ⟨s3, hs3⟩ := getOrCreateX_some fs cur s2 k hk
-        unfold buildX
-        simp only [hcond, Bool.not_true, Bool.false_eq_true, if_false, beq_self_eq_true, if_true, hs3, hflow,
-          hrec f2 (by omega) s3]
-    by_cases ho : (s1.ownerOf k == home) = true
-    · simp only [ho, if_true, hnext]
-    · simp only [ho, Bool.false_eq_true, if_false, hnext]
+/-- `corpus/C05/regress-F05c.ops`: a null entry among the internal limits -/
+def wCfgC : Cfg :=
+  { qfiles := [{ quotas := [{ id := "q1", url := some "verif.test/*", strat := { kind := "conc", maxreq := some 5 } }],
+                 internals := [{ null := true }] }] }
 
-theorem wB_loops : ∀ (fuel : Nat) (home : String) (s : BS),
-    buildX wCfgB.ptypes wCfgB.flows home .req fuel "fa" s wFa.req = .error .fuel ∧
-    buildX wCfgB.ptypes wCfgB.flows home .req fuel "fb" s wFb.req = .error .fuel := by
-  intro fuel
-  induction fuel using Nat.strongRecOn with
-  | ind fuel ih =>
-    intro home s
-    exact ⟨loop_shape _ _ home "fa" "A" "fb" wFb fuel (by decide) (by decide) (by decide)
-             (fun f' hf' s' => (ih f' hf' home s').2) s,
-           loop_shape _ _ home "fb" "B" "fa" wFa fuel (by decide) (by decide) (by decide)
-             (fun f' hf' s' => (ih f' hf' home s').1) s⟩
-
-theorem wCfgB_load : load wCfgB = .crash := by
-  have h1 : buildFlowX wCfgB.ptypes wCfgB.flows wFa none = .error .fuel := by
-    unfold buildFlowX
-    rw [show wFa.name = "fa" from rfl, (wB_loops buildFuel "fa" _).1]
-  have h2 : buildAll wCfgB.ptypes wCfgB.flows wCfgB.flows none = .error .fuel := by
-    show buildAll wCfgB.ptypes wCfgB.flows (wFa :: [wFb]) none = .error .fuel
-    unfold buildAll buildOne
-    rw [show wFa.refFree = false by decide]
-    simp only [Bool.false_eq_true, if_false, h1]
-  unfold load
-  rw [show quotaCheck wCfgB.qfiles = .ok [] by decide]
-  simp only [show wCfgB.flows.all flowYamlOk = true by decide,
-    show nodupKeys (wCfgB.flows.map (·.name)) = true by decide,
-    show (([] : List String) ++ wCfgB.flows.map fun f => f.url.getD "").all urlOk = true by decide,
-    show firstSome (fun f => firstSome (procCreate wCfgB) f.procs) wCfgB.flows = none by decide, h2,
-    Bool.not_true, Bool.false_eq_true, if_false]
-
-/-! ### a plain accepted configuration (non-vacuity) -/
-
+/-- a plain accepted configuration: `A → {B, C}` -/
 def wCfgOk : Cfg :=
   { pdefs := [wPA]
     flows := [{ name := "f1"
@@ -217,5 +78,9 @@ def wCfgOk : Cfg :=
                 req := [⟨wS, .proc "A" ""⟩, ⟨.proc "A" "a", .proc "B" ""⟩, ⟨.proc "A" "a", .proc "C" ""⟩,
                         ⟨.proc "B" "a", wE⟩, ⟨.proc "C" "a", wE⟩]
                 res := [⟨wS, wE⟩] }] }
+
+def isAccept : LoadRes → Bool
+  | .accept _ => true
+  | _ => false
 
 end LunarVerif.C05
